@@ -30,6 +30,10 @@ const OWN4B: Ip = v4(172, 16, 5, 5);
 const PEER4: Ip = v4(10, 0, 0, 2);
 const GW4: Ip = v4(10, 0, 0, 254);
 const JOINED4: Ip = v4(224, 1, 2, 3);
+// a second IPv4 subnet / a second global IPv6 prefix of the interface
+const OWN4S2: Ip = v4(192, 168, 1, 1);
+const PEER4S2: Ip = v4(192, 168, 1, 2);
+const OWN4S3: Ip = v4(172, 16, 9, 1);
 
 const OWN6LL: Ip = v6([0xfe80, 0, 0, 0, 0x0000, 0x00ff, 0xfe00, 0x0001]);
 const OWN6G: Ip = v6([0x2001, 0xdb8, 0, 0, 0, 0, 0xab, 0xcd01]);
@@ -37,6 +41,8 @@ const PEER6LL: Ip = v6([0xfe80, 0, 0, 0, 0x0000, 0x00ff, 0xfe00, 0x0002]);
 const PEER6G: Ip = v6([0x2001, 0xdb8, 0, 0, 0, 0, 0, 2]);
 const GW6: Ip = v6([0xfe80, 0, 0, 0, 0, 0, 0, 0xfe]);
 const JOINED6: Ip = v6([0xff05, 0, 0, 0, 0, 0, 0, 0x77]);
+const OWN6S2: Ip = v6([0x2001, 0xdb8, 1, 0, 0, 0, 0, 5]);
+const PEER6S2: Ip = v6([0x2001, 0xdb8, 1, 0, 0, 0, 0, 2]);
 
 fn src_classes(v4fam: bool) -> Vec<(&'static str, Ip)> {
     if v4fam {
@@ -49,6 +55,9 @@ fn src_classes(v4fam: bool) -> Vec<(&'static str, Ip)> {
             ("multicast", v4(224, 0, 0, 5)),
             ("unspecified", v4(0, 0, 0, 0)),
             ("loopback", v4(127, 0, 0, 1)),
+            ("peer-subnet2", PEER4S2),
+            ("subnet2-bcast", v4(192, 168, 1, 255)),
+            ("subnet3-bcast", v4(172, 16, 9, 3)),
         ]
     } else {
         vec![
@@ -59,6 +68,7 @@ fn src_classes(v4fam: bool) -> Vec<(&'static str, Ip)> {
             ("multicast", v6([0xff02, 0, 0, 0, 0, 0, 0, 5])),
             ("unspecified", v6([0; 8])),
             ("loopback", v6([0, 0, 0, 0, 0, 0, 0, 1])),
+            ("peer-subnet2", PEER6S2),
         ]
     }
 }
@@ -78,6 +88,10 @@ fn dst_classes(v4fam: bool) -> Vec<(&'static str, Ip)> {
             ("unspecified", v4(0, 0, 0, 0)),
             ("loopback", v4(127, 0, 0, 1)),
             ("network-addr", v4(10, 0, 0, 0)),
+            ("own-subnet2", OWN4S2),
+            ("other-onlink-subnet2", v4(192, 168, 1, 77)),
+            ("subnet2-bcast", v4(192, 168, 1, 255)),
+            ("subnet3-bcast", v4(172, 16, 9, 3)),
         ]
     } else {
         vec![
@@ -96,6 +110,9 @@ fn dst_classes(v4fam: bool) -> Vec<(&'static str, Ip)> {
             ("unspecified", v6([0; 8])),
             ("loopback", v6([0, 0, 0, 0, 0, 0, 0, 1])),
             ("all-routers", v6([0xff02, 0, 0, 0, 0, 0, 0, 2])),
+            ("own-subnet2", OWN6S2),
+            ("other-onlink-subnet2", v6([0x2001, 0xdb8, 1, 0, 0, 0, 0, 0x77])),
+            ("solicited-own-subnet2", v6([0xff02, 0, 0, 0, 0, 1, 0xff00, 0x0005])),
         ]
     }
 }
@@ -219,18 +236,27 @@ fn sock_set(which: usize, v4fam: bool) -> Vec<SockSpec> {
 }
 
 /// (interface configuration, socket set) pairs per medium / family
-fn cfg_pairs(med: Med, v4fam: bool) -> Vec<(usize, usize)> {
+fn cfg_pairs(med: Med, v4fam: bool, wide: bool) -> Vec<(usize, usize)> {
+    if wide {
+        // interfaces with three / four addresses (harness built with IFACE_MAX_ADDR_COUNT = 4)
+        return vec![(10, 1), (11, 1), (10, 2)];
+    }
     let mut v = vec![(0, 0), (0, 1), (0, 2)];
     if med != Med::Ip {
         v.push((1, 0)); // empty neighbor cache
     }
     v.push((2, 1));
-    if !v4fam {
+    if v4fam {
+        v.push((3, 1)); // two IPv4 subnets, both orders
+        v.push((4, 1));
+    } else {
         v.push((3, 1));
         v.push((4, 1));
         if med == Med::M154 {
             v.push((5, 1));
         }
+        v.push((6, 1)); // two global IPv6 prefixes, both orders
+        v.push((7, 1));
     }
     v
 }
@@ -266,14 +292,21 @@ fn base_scn(med: Med, v4fam: bool, cfg: usize, socks: usize, mtu: Option<usize>)
                 s.groups = vec![JOINED4];
                 full_neigh = cfg == 0;
             }
-            _ => {
+            2 => {
                 s.addrs = vec![(OWN4, 24), (OWN6LL, 64)];
                 s.anyip = true;
             }
+            3 => s.addrs = vec![(OWN4S2, 24), (OWN4, 24)],
+            4 => s.addrs = vec![(OWN4, 24), (OWN4S2, 24)],
+            10 => s.addrs = vec![(OWN4S3, 30), (OWN4S2, 24), (OWN4, 24), (OWN6LL, 64)],
+            _ => s.addrs = vec![(OWN4, 24), (OWN6LL, 64), (OWN4S2, 24), (OWN6G, 64)],
         }
         s.routes = vec![(v4(0, 0, 0, 0), 0, GW4)];
         if full_neigh && med == Med::Eth {
             s.neigh = vec![(PEER4, peer_ll), (GW4, gw_ll)];
+            if cfg >= 3 {
+                s.neigh.push((PEER4S2, peer_ll));
+            }
         }
     } else {
         match cfg {
@@ -291,15 +324,22 @@ fn base_scn(med: Med, v4fam: bool, cfg: usize, socks: usize, mtu: Option<usize>)
             2 => {
                 s.addrs = if med == Med::M154 { vec![(OWN6G, 64)] } else { vec![(OWN6G, 64), (OWN4, 24)] };
             }
-            _ => {
+            3 => {
                 // no IPv6 address at all (802.15.4 cannot carry the IPv4 one: leave it empty there)
                 s.addrs = if med == Med::M154 { vec![] } else { vec![(OWN4, 24)] };
             }
+            6 => s.addrs = vec![(OWN6G, 64), (OWN6S2, 64)],
+            7 => s.addrs = vec![(OWN6S2, 64), (OWN6G, 64)],
+            10 => s.addrs = if med == Med::M154 { vec![(OWN6LL, 64), (OWN6S2, 64), (OWN6G, 64)] } else { vec![(OWN4, 24), (OWN6LL, 64), (OWN6S2, 64), (OWN6G, 64)] },
+            _ => s.addrs = if med == Med::M154 { vec![(OWN6G, 64), (OWN6S2, 56), (OWN6LL, 64)] } else { vec![(OWN6G, 64), (OWN6S2, 56), (OWN6LL, 64), (OWN4S2, 24)] },
         }
         s.routes = vec![(v6([0; 8]), 0, GW6)];
         let has_v6 = s.addrs.iter().any(|(a, _)| matches!(a, Ip::V6(_)));
         if full_neigh && med != Med::Ip && has_v6 {
             s.neigh = vec![(PEER6LL, peer_ll), (PEER6G, peer_ll), (GW6, gw_ll)];
+            if cfg >= 6 {
+                s.neigh.push((PEER6S2, peer_ll));
+            }
         }
     }
     s
@@ -314,7 +354,7 @@ struct Segment {
 
 fn tx_dsts(v4fam: bool) -> Vec<Ip> {
     if v4fam {
-        vec![PEER4, v4(198, 51, 100, 7), v4(10, 0, 0, 77), v4(10, 0, 0, 255), v4(255, 255, 255, 255), JOINED4, v4(127, 0, 0, 1), OWN4, OWN4B]
+        vec![PEER4, v4(198, 51, 100, 7), v4(10, 0, 0, 77), v4(10, 0, 0, 255), v4(255, 255, 255, 255), JOINED4, v4(127, 0, 0, 1), OWN4, OWN4B, PEER4S2, v4(192, 168, 1, 255)]
     } else {
         vec![
             PEER6LL,
@@ -327,6 +367,7 @@ fn tx_dsts(v4fam: bool) -> Vec<Ip> {
             v6([0xff0e, 0, 0, 0, 0, 0, 0, 0x99]),
             v6([0, 0, 0, 0, 0, 0, 0, 1]),
             OWN6G,
+            PEER6S2,
         ]
     }
 }
@@ -351,22 +392,32 @@ fn tx_points(med: Med, v4fam: bool) -> Vec<(Option<usize>, usize)> {
     ]
 }
 
-fn segments() -> Vec<Segment> {
+fn tx_pairs(v4fam: bool, wide: bool) -> Vec<(usize, usize)> {
+    if wide {
+        vec![(10, 3), (11, 3)]
+    } else if v4fam {
+        vec![(0, 3), (1, 3), (2, 3), (3, 3), (4, 3)]
+    } else {
+        vec![(0, 3), (1, 3), (2, 3), (3, 3), (6, 3), (7, 3)]
+    }
+}
+
+fn segments(wide: bool) -> Vec<Segment> {
     let mut v = vec![];
     for (med, v4fam) in [(Med::Ip, true), (Med::Eth, true), (Med::Ip, false), (Med::Eth, false), (Med::M154, false)] {
         v.push(Segment {
             med,
             v4fam,
             tx: false,
-            dims: vec![cfg_pairs(med, v4fam).len(), ll_classes(med, v4fam).len(), src_classes(v4fam).len(), dst_classes(v4fam).len(), upper_variants(v4fam).len()],
+            dims: vec![cfg_pairs(med, v4fam, wide).len(), ll_classes(med, v4fam).len(), src_classes(v4fam).len(), dst_classes(v4fam).len(), upper_variants(v4fam).len()],
         });
-        v.push(Segment { med, v4fam, tx: true, dims: vec![if v4fam { 3 } else { 4 }, 3, tx_dsts(v4fam).len(), tx_points(med, v4fam).len()] });
+        v.push(Segment { med, v4fam, tx: true, dims: vec![tx_pairs(v4fam, wide).len(), 3, tx_dsts(v4fam).len(), tx_points(med, v4fam).len()] });
     }
     v
 }
 
-fn product_size() -> usize {
-    segments().iter().map(|s| s.dims.iter().product::<usize>()).sum()
+fn product_size(wide: bool) -> usize {
+    segments(wide).iter().map(|s| s.dims.iter().product::<usize>()).sum()
 }
 
 fn decode(mut i: usize, dims: &[usize]) -> Vec<usize> {
@@ -379,9 +430,9 @@ fn decode(mut i: usize, dims: &[usize]) -> Vec<usize> {
 }
 
 /// the scenario with product index `idx`
-fn scenario_at(idx: usize) -> Scn {
+fn scenario_at(idx: usize, wide: bool) -> Scn {
     let mut i = idx;
-    for seg in segments() {
+    for seg in segments(wide) {
         let sz: usize = seg.dims.iter().product();
         if i >= sz {
             i -= sz;
@@ -389,7 +440,7 @@ fn scenario_at(idx: usize) -> Scn {
         }
         let d = decode(i, &seg.dims);
         if !seg.tx {
-            let (cfg, socks) = cfg_pairs(seg.med, seg.v4fam)[d[0]];
+            let (cfg, socks) = cfg_pairs(seg.med, seg.v4fam, wide)[d[0]];
             let mut s = base_scn(seg.med, seg.v4fam, cfg, socks, None);
             let (_, ll, pan) = ll_classes(seg.med, seg.v4fam)[d[1]].clone();
             let (_, src) = src_classes(seg.v4fam)[d[2]];
@@ -398,7 +449,7 @@ fn scenario_at(idx: usize) -> Scn {
             s.ev = Event::Rx(Rx { ll, pan, src, dst, hbh, upper });
             return s;
         } else {
-            let pairs: Vec<(usize, usize)> = if seg.v4fam { vec![(0, 3), (1, 3), (2, 3)] } else { vec![(0, 3), (1, 3), (2, 3), (3, 3)] };
+            let pairs = tx_pairs(seg.v4fam, wide);
             let (cfg, socks) = pairs[d[0]];
             let (mtu, len) = tx_points(seg.med, seg.v4fam)[d[3]];
             // configuration 1 = empty neighbor cache exists only on media with neighbors
@@ -418,13 +469,13 @@ fn scenario_at(idx: usize) -> Scn {
 
 /// quick tier: sample the product and perturb what does not change a class (lengths, unrelated
 /// ports); thorough tier: shard `seed % 1000` enumerates indices [k*n, (k+1)*n)
-fn gen_scenarios(seed: u64, n: usize, tier: &str, prefix: &str) -> Vec<(String, Scn)> {
-    let total = product_size();
+fn gen_scenarios(seed: u64, n: usize, tier: &str, prefix: &str, wide: bool) -> Vec<(String, Scn)> {
+    let total = product_size(wide);
     let mut out = vec![];
     if tier == "thorough" {
         let k = (seed % 1000) as usize;
         for i in (k * n)..((k + 1) * n).min(total) {
-            out.push((format!("{}x{}", prefix, i), scenario_at(i)));
+            out.push((format!("{}x{}", prefix, i), scenario_at(i, wide)));
         }
         return out;
     }
@@ -432,7 +483,7 @@ fn gen_scenarios(seed: u64, n: usize, tier: &str, prefix: &str) -> Vec<(String, 
     // the egress scenarios are a small part of the product: give them one case in six
     let mut tx_ranges: Vec<(usize, usize)> = vec![];
     let mut off = 0;
-    for seg in segments() {
+    for seg in segments(wide) {
         let sz: usize = seg.dims.iter().product();
         if seg.tx {
             tx_ranges.push((off, sz));
@@ -455,7 +506,7 @@ fn gen_scenarios(seed: u64, n: usize, tier: &str, prefix: &str) -> Vec<(String, 
         } else {
             rng.below(total as u64) as usize
         };
-        let mut s = scenario_at(i);
+        let mut s = scenario_at(i, wide);
         if let Event::Rx(rx) = &mut s.ev {
             match &mut rx.upper {
                 Upper::Tcp { sp, dp, len, ctl, .. } => {
@@ -553,6 +604,23 @@ fn witnesses() -> Vec<(&'static str, Scn)> {
         ("loopback-dst-echo-answered-from-loopback-eth", rx6(Med::Eth, 0, 0, own_eth, PEER6LL, v6([0, 0, 0, 0, 0, 0, 0, 1]), None, Upper::EchoReq { id: 1, len: 12 })),
         ("loopback-dst-udp-delivered-ip", rx6(Med::Ip, 0, 1, Ll::None, PEER6G, v6([0, 0, 0, 0, 0, 0, 0, 1]), None, Upper::Udp { sp: 40000, dp: 5000, len: 10 })),
         ("loopback-dst-syn-reaches-listener-ip", rx6(Med::Ip, 0, 1, Ll::None, PEER6G, v6([0, 0, 0, 0, 0, 0, 0, 1]), None, syn(80))),
+        // interface with two IPv4 subnets: the directed broadcast of the SECOND one as source / destination
+        // (regression cases for is_broadcast_v4 looking at every configured subnet)
+        ("two-subnets-second-broadcast-as-source-udp-ip", {
+            let mut s = base_scn(Med::Ip, true, 3, 1, None);
+            s.ev = Event::Rx(Rx { ll: Ll::None, pan: None, src: v4(10, 0, 0, 255), dst: OWN4S2, hbh: None, upper: Upper::Udp { sp: 40000, dp: 9, len: 10 } });
+            s
+        }),
+        ("two-subnets-second-broadcast-as-destination-syn-eth", {
+            let mut s = base_scn(Med::Eth, true, 3, 1, None);
+            s.ev = Event::Rx(Rx { ll: Ll::Eth(0xffff_ffff_ffff), pan: None, src: PEER4, dst: v4(10, 0, 0, 255), hbh: None, upper: syn(80) });
+            s
+        }),
+        ("two-subnets-second-broadcast-as-destination-udp-closed-ip", {
+            let mut s = base_scn(Med::Ip, true, 4, 1, None);
+            s.ev = Event::Rx(Rx { ll: Ll::None, pan: None, src: PEER4, dst: v4(192, 168, 1, 255), hbh: None, upper: Upper::Udp { sp: 40000, dp: 9, len: 10 } });
+            s
+        }),
         // unicast IP inside a link-layer broadcast / multicast frame answered with an error
         ("ll-broadcast-unicast-ip-udp-port-unreachable-eth", rx4(Med::Eth, 0, Ll::Eth(0xffff_ffff_ffff), PEER4, OWN4, Upper::Udp { sp: 40000, dp: 9, len: 10 })),
         ("ll-multicast-unicast-ip-syn-rst-eth", rx4(Med::Eth, 0, Ll::Eth(0x0100_5e00_0001), PEER4, OWN4, syn(9))),
